@@ -5,7 +5,7 @@
    PARTIAL with respect to the post-measurement density matrix: proved at the group level (the new group contains (-1)^out O and every old stabilizer that commutes with O,
    rank drops exactly when no active stabilizer anticommutes, i.e. when an undetermined LOGICAL operator was measured); that these generate exactly the group of
    P rho P / Tr follows by counting generators (N - r' independent ones, C05) and is compared densely (N<=4) by the correspondence check. *)
-From PC Require Import Gen.Kernels Model.Base Model.Pauli Model.CMap Model.Tableau Model.Spec Proofs.TableauInv Proofs.MeasureFacts.
+From PC Require Import Gen.Kernels Model.Base Model.Pauli Model.CMap Model.Tableau Model.Spec Proofs.TableauInv Proofs.MeasureFacts Proofs.ProjectionFacts.
 Open Scope Z_scope.
 
 (* determined: +-O already a stabilizer: nothing changes, log2-probability 0, the outcome is the eigenvalue fixed by the state *)
@@ -57,6 +57,23 @@ Theorem C06_tableau_nondegenerate : forall n t g, tableau_ok n t -> length g = n
   (forall i, (i < 2 * n)%nat -> acq (fst (row (rows t) i)) g = 0) -> g = id_str n.
 Proof. exact tableau_nondegenerate. Qed.
 Print Assumptions C06_tableau_nondegenerate.
+(* the projection postulate, exactly: after an undetermined measurement the stabilizer group is generated by the signed observable and the old stabilizers
+   commuting with it -- BOTH inclusions; after a determined measurement the group is unchanged *)
+Theorem C06_post_measurement_group_exact : forall n t o coin a, tableau_ok n t -> length (fst o) = n -> hermP o -> (coin = 0 \/ coin = 1) ->
+  (exists i, (i < n + rk t)%nat /\ acq (fst (row (rows t) i)) (fst o) = 1) ->
+  let t' := fst (fst (fst (measure1 t o coin))) in
+  let so := (fst o, 2 * coin) in
+  (in_group n t' a <-> exists b, in_group n t b /\ acq (fst b) (fst o) = 0 /\ (a = b \/ a = pmul b so)).
+Proof. exact measure1_group_exact. Qed.
+Print Assumptions C06_post_measurement_group_exact.
+Theorem C06_determined_group_unchanged : forall n t o coin a, tableau_ok n t -> length (fst o) = n -> hermP o ->
+  (forall i, (i < n + rk t)%nat -> acq (fst (row (rows t) i)) (fst o) = 0) ->
+  (in_group n (fst (fst (fst (measure1 t o coin)))) a <-> in_group n t a).
+Proof. exact measure1_determined_group. Qed.
+Print Assumptions C06_determined_group_unchanged.
+Theorem C06_group_closed_under_products : forall n t a b, tableau_ok n t -> in_group n t a -> in_group n t b -> in_group n t (pmul a b).
+Proof. exact group_closed. Qed.
+Print Assumptions C06_group_closed_under_products.
 (* non-vacuity: the witness of the repaired pivot defect -- mixed state (r=1) with stabilizer Z1 and logical pair Z0/X0, observable X0X1 is undetermined and
    the rank must NOT drop because the active stabilizer Z1 anticommutes *)
 Example C06_example :
